@@ -7,7 +7,7 @@ from common import zs, zz, cbool, clist, cnat
 import out_driver as od
 
 PROP = "C15"
-PROPERTY_FILES = ["Properties/C15.v"]
+PROPERTY_FILES = ["Properties/C15.v", "Properties/C15in.v"]
 META = dict(
     level_text="Theorems (Coq, closed under the global context, for every threshold convention >=/> of the five "
                "comparisons): the per-peer decision table strictly inside each period with both directions "
